@@ -47,8 +47,8 @@ def check_lists(s3, model, rr_model, out, info):
             if it in seen:
                 out.append(D(f"C11:{name}:repeated", f"{it.nt1.full_name}-{it.nt2.full_name} listed twice"))
             seen.add(it)
-            a = by_ident.get((it.nt1.chain, it.nt1.number, it.nt1.icode))
-            b = by_ident.get((it.nt2.chain, it.nt2.number, it.nt2.icode))
+            a = by_ident.get(geomref.identity(it.nt1)[:3])
+            b = by_ident.get(geomref.identity(it.nt2)[:3])
             if a is None or b is None:
                 out.append(D(f"C11:{name}:participant-not-in-model", f"{it.nt1.full_name}-{it.nt2.full_name} (model {model})"))
                 continue
@@ -57,8 +57,8 @@ def check_lists(s3, model, rr_model, out, info):
     for name in ("basePairs", "stackings"):
         prev = None
         for it in lists[name]:
-            a = by_ident.get((it.nt1.chain, it.nt1.number, it.nt1.icode))
-            b = by_ident.get((it.nt2.chain, it.nt2.number, it.nt2.icode))
+            a = by_ident.get(geomref.identity(it.nt1)[:3])
+            b = by_ident.get(geomref.identity(it.nt2)[:3])
             if a is None or b is None:
                 continue
             if not a.key < b.key:
@@ -69,8 +69,8 @@ def check_lists(s3, model, rr_model, out, info):
             prev = k
     noncanon = 0
     for bp in lists["basePairs"]:
-        a = by_ident.get((bp.nt1.chain, bp.nt1.number, bp.nt1.icode))
-        b = by_ident.get((bp.nt2.chain, bp.nt2.number, bp.nt2.icode))
+        a = by_ident.get(geomref.identity(bp.nt1)[:3])
+        b = by_ident.get(geomref.identity(bp.nt2)[:3])
         if a is None or b is None:
             continue
         want = geomref.SAENGER.get((a.letter + b.letter, bp.lw.value))
@@ -82,8 +82,8 @@ def check_lists(s3, model, rr_model, out, info):
     for name, attr, accs in (("basePhosphate", "bph", geomref.R_PHOSPHATE), ("baseRibose", "br", geomref.R_RIBOSE)):
         per_pair = {}
         for it in lists[name]:
-            a = by_ident.get((it.nt1.chain, it.nt1.number, it.nt1.icode))
-            b = by_ident.get((it.nt2.chain, it.nt2.number, it.nt2.icode))
+            a = by_ident.get(geomref.identity(it.nt1)[:3])
+            b = by_ident.get(geomref.identity(it.nt2)[:3])
             if a is None or b is None or a.idx == b.idx:
                 continue
             per_pair[(a.idx, b.idx)] = per_pair.get((a.idx, b.idx), 0) + 1
